@@ -532,7 +532,8 @@ def extract(node, variant, report):
                 pos = text.find(old, pos + len(old), it.end)
             report['manual_rewrites'].append(dict(item=' >> '.join([node['file']] + node['path']), old=old, new=new, reason=why, occurrences=n_occ))
             continue
-        if _find_ws(text, old, pos + 1, it.end)[0] >= 0:
+        exact = text.startswith(old, pos)
+        if (text.find(old, pos + 1, it.end) if exact else _find_ws(text, old, pos + 1, it.end)[0]) >= 0:
             raise TemplateError('sub anchor %r ambiguous in %s' % (old, node['path']))
         edits.append((pos, pos + plen, new, 'MR'))
         report['manual_rewrites'].append(dict(item=' >> '.join([node['file']] + node['path']), old=old, new=new, reason=why))
